@@ -24,6 +24,8 @@ def atom_id(a):
     parts.append("hl" if a.get("hl") in (None, True) else "lh")
     if a.get("mask") is not None:
         parts.append(f"m{a['mask']:x}" + ("c" if a.get("condensed") else ""))
+    if a.get("tail") is False:
+        parts.append("notail")
     for k in ("min", "max", "term", "vlen", "sidx"):
         if a.get(k) is not None:
             parts.append(f"{k}{a[k]}")
@@ -104,6 +106,37 @@ def ref_pdu(a, v):
             n = p.put_bytes(pos, raw)
         else:
             return None
+    elif dct in ("minmax", "leading"):
+        if dtp == "A_BYTEFIELD":
+            raw = v
+        elif dtp in odxref.STRINGS:
+            codec = odxref.codec_of(dtp, enc if dct == "minmax" else None, hl)
+            try:
+                raw = v.encode(codec)
+            except UnicodeEncodeError:
+                raise odxref.Reject("unencodable")
+        else:
+            return None
+        if dct == "minmax":
+            if bitpos:
+                return None
+            if len(raw) < a["min"] or (a.get("max") is not None and len(raw) > a["max"]):
+                raise odxref.Reject("length outside MIN-LENGTH..MAX-LENGTH")
+            two = dtp == "A_UNICODE2STRING"
+            term = {"ZERO": [0, 0] if two else [0], "HEX-FF": [0xFF, 0xFF] if two else [0xFF],
+                    "END-OF-PDU": []}[a["term"]]
+            n = p.put_bytes(pos, raw)
+            at_end = not a.get("tail", True)
+            if a["term"] == "END-OF-PDU" and not at_end:
+                return None  # END-OF-PDU termination away from the end is not a legal description
+            if not at_end and len(raw) != a.get("max"):
+                n += p.put_bytes(pos + n, term)
+        else:
+            lbl = a["bl"]
+            if len(raw) >= (1 << lbl):
+                raise odxref.Reject("length does not fit the length field")
+            n = p.put_field(pos, bitpos, lbl, len(raw), hl)
+            n += p.put_bytes(pos + n, raw)
     else:
         return None
     end = pos + n
@@ -272,11 +305,39 @@ def atoms(tier, seed):
                     for hl in ((True, False) if dtp == "A_UNICODE2STRING" else (True,)):
                         out.append(dict(dt=dtp, enc=enc, bl=bl, bitpos=0, hl=hl, bytepos=None,
                                         sidx=sidx))
+    # MIN-MAX-LENGTH-TYPE and LEADING-LENGTH-INFO-TYPE
+    for dtp, encs in (("A_BYTEFIELD", [None]), ("A_ASCIISTRING", [None]), ("A_UTF8STRING", [None]),
+                      ("A_UNICODE2STRING", [None])):
+        for mn, mx in ((0, None), (1, 3), (2, 2), (0, 2), (2, 4)):
+            if dtp == "A_UNICODE2STRING" and (mn % 2 or (mx or 0) % 2):
+                continue  # lengths of 16-bit code unit strings are even
+            for term in ("ZERO", "HEX-FF", "END-OF-PDU"):
+                for tail in (True, False):
+                    if term == "END-OF-PDU" and tail:
+                        continue
+                    vals = (range(0, (mx or 3) + 2) if dtp == "A_BYTEFIELD"
+                            else range(len(STRING_CATALOGUE)))
+                    for x in vals:
+                        a = dict(dt=dtp, enc=None, dct="minmax", min=mn, max=mx, term=term,
+                                 tail=tail, bitpos=0, bytepos=None, hl=True)
+                        a["vlen" if dtp == "A_BYTEFIELD" else "sidx"] = x
+                        out.append(a)
+        for lbl in (4, 8, 12, 16):
+            for bitpos in (0, 4):
+                for hl in (True, False):
+                    vals = (range(0, 4) if dtp == "A_BYTEFIELD" else (0, 1, 2, 4, 5, 7, 10))
+                    for x in vals:
+                        a = dict(dt=dtp, enc=None, dct="leading", bl=lbl, bitpos=bitpos,
+                                 bytepos=None, hl=hl)
+                        a["vlen" if dtp == "A_BYTEFIELD" else "sidx"] = x
+                        out.append(a)
     if tier == "quick":
         # seeded sample of the full product; all boundary members are kept
         def boundary(a):
-            return (a["dt"] not in INT_TYPES or a.get("enc") in ("BCD-P", "BCD-UP") or
-                    (a["bl"] in (1, 2, 8, 64) and a["bitpos"] in (0, 7) and a["bytepos"] is None))
+            return ((a["dt"] not in INT_TYPES and a.get("dct", "std") == "std") or
+                    a.get("enc") in ("BCD-P", "BCD-UP") or
+                    (a["dt"] in INT_TYPES and a["bl"] in (1, 2, 8, 64) and a["bitpos"] in (0, 7)
+                     and a["bytepos"] is None))
         keep = [a for a in out if boundary(a)]
         rest = [a for a in out if not boundary(a)]
         rnd.shuffle(rest)
@@ -295,6 +356,7 @@ def configs_for(prop, tier, seed):
         c["harness"] = "atom"
         c["id"] = "atom/" + atom_id(a)
         c["build"] = {k: v for k, v in a.items() if k not in ("vlen", "sidx")}
+        c["tail"] = a.get("tail", True)
         if a["dt"] == "A_UINT32" and a.get("enc") == "BCD-P":
             c["W"] = 48
         cfgs.append(c)
